@@ -327,7 +327,8 @@ def collect(cfg, shard_outs):
                         agg["samples"].append(line.split("\t", 1)[1][:1500])
                 elif line.startswith("!FAIL\t"):
                     parts = line.split("\t")
-                    agg["fail"].append({"id": parts[1], "signature": unesc(parts[2]), "detail": unesc(parts[3]) if len(parts) > 3 else ""})
+                    agg["fail"].append({"id": parts[1], "signature": unesc(parts[2]), "detail": unesc(parts[3]) if len(parts) > 3 else "",
+                                        "shard_lines": lines})
                 elif line.startswith("!NOTE\t"):
                     pass
                 else:
@@ -364,6 +365,9 @@ def collect(cfg, shard_outs):
                         agg["bad"].append(rec)
             if seen != len(lines):
                 agg["infra"].append("driver answered %d of %d cases" % (seen, len(lines)))
+    for rec in agg["fail"]:
+        # attach the case line (the harness writes the case before or after its !FAIL line)
+        rec["case"] = rec.pop("shard_lines", {}).get(rec["id"], "")
     if not agg["samples"]:
         for so in shard_outs:
             if so["harness_rc"] == 0:
@@ -596,6 +600,13 @@ def write_evidence(pid, tier, seed, cfg, theorems, tables, checker_cmd, agg, bro
 
 def setup():
     t0 = time.time()
+    # regenerate every generated table first: modules import them
+    for name in sorted(os.listdir(os.path.join(VERIF, "checks"))):
+        if re.match(r"C\d+\.json$", name):
+            ok, _ = run_translators(load_cfg(name[:-5]), [])
+            if not ok:
+                print("translator failed for", name)
+                return 1
     with Lock("lake"):
         rc, out = sh(["lake", "build"], cwd=LEAN)
     print(out[-3000:])
@@ -609,7 +620,6 @@ def setup():
                 drivers.append(cfg["driver"])
             if cfg.get("harness_bin"):
                 bins += [cfg["harness_bin"]] + cfg.get("extra_bins", [])
-            run_translators(cfg, [])
     with Lock("lake"):
         rc, out = sh(["lake", "build"] + sorted(set(drivers)), cwd=LEAN)
     print(out[-3000:])
